@@ -299,6 +299,10 @@ def c08(F: Facts):
             what = 'a handler result changed'
         added = [(r['h'], r['bus'], r['st']) for rid, r in after.items() if rid not in before]
         v.append((clause, f'event {s["ev"]} observed complete at idx {s["observed_at"]} ({s["how"]}); at idx {s["changed_at"]} {what}; added={added}'))
+    # completion outlives the event loop it happened in
+    for r in F.out.get('second_loop') or []:
+        if r.get('await') != 'returned' or r.get('status') != 'completed' or not r.get('sig'):
+            v.append(('C08.a', f'event {r.get("ev")} had been observed complete; looked at again in a later event loop: status={r.get("status")} completion signalled={r.get("sig")} await -> {r.get("await")}'))
     # awaiting a forwarded event waits for the handlers of every bus it is forwarded to
     for r in F.tr:
         if r['k'] == 'a-await-end' and not r.get('exc'):
